@@ -393,6 +393,15 @@ def run_lines(exe, lines, full=False, timeout=1200, extra_env=None, mem_gb=24):
         # process died on case index len(outs)
         err = se.decode(errors="replace")
         outs.append(crash_summary(err, p.returncode))
+        try:
+            # kept for diagnosis only (the case a background goroutine dies on is not always the case that started it)
+            d = os.path.join(ROOT, "build", "tmp")
+            os.makedirs(d, exist_ok=True)
+            with open(os.path.join(d, "last-crash-%s.txt" % os.path.basename(exe)), "w") as f:
+                f.write("case index %d: %s\nprevious: %s\n\n%s" % (len(outs) - 1, lines[len(outs) - 1][:2000],
+                                                                    lines[len(outs) - 2][:2000] if len(outs) > 1 else "-", err[-20000:]))
+        except Exception:
+            pass
         start = len(outs)
         restarts += 1
         if restarts > 500:
@@ -414,7 +423,7 @@ def crash_summary(stderr, rc):
             kind = k
             break
     site = "?"
-    for fm in re.finditer(r"^(\S*q191201771/(?:lal|naza)/\S+?)\(", stderr, re.M):
+    for fm in re.finditer(r"^(\S*q191201771/(?:lal|naza)/[\w./-]*?(?:\(\*?\w+\))?[\w.]*)\((?!\*)", stderr, re.M):
         fn = fm.group(1)
         site = fn[fn.rfind("/") + 1:]
         break
